@@ -135,8 +135,8 @@ func runC10(rec *vkit.Recorder, c *c10Case) []vkit.Violation {
 		lo, hi time.Time
 		pinned *time.Time
 	}
-	var cur *epoch       // the idle period the sidecar is in (nil: not idle)
-	var persisted *epoch // the idle period recorded by the last acknowledged (persisted) update (nil: that assignment was not empty)
+	var cur *epoch               // the idle period the sidecar is in (nil: not idle)
+	var persisted *epoch         // the idle period recorded by the last acknowledged (persisted) update (nil: that assignment was not empty)
 	acked := map[uint64]mEntry{} // the last acknowledged assignment (job, state)
 	// a fresh sidecar is idle from its first load
 	var vs []vkit.Violation
@@ -245,101 +245,101 @@ func runC10(rec *vkit.Recorder, c *c10Case) []vkit.Violation {
 		return out, nil
 	}
 	doUpdate := func(i int, assign map[string][]c10T, reloadFails bool) bool {
-			req := &shard.UpdateTargetsRequest{Targets: map[string][]*target.Target{}}
-			for job, ts := range assign {
-				req.Targets[job] = []*target.Target{}
+		req := &shard.UpdateTargetsRequest{Targets: map[string][]*target.Target{}}
+		for job, ts := range assign {
+			req.Targets[job] = []*target.Target{}
+			for _, t := range ts {
+				ls := lbls("__address__", c10Addr(t.Hash), "__scheme__", "http", "__metrics_path__", "/metrics", "job", job)
+				if t.NoAddr {
+					ls = lbls("__scheme__", "http", "__metrics_path__", "/metrics", "job", job)
+				}
+				req.Targets[job] = append(req.Targets[job], &target.Target{Hash: t.Hash, TargetState: t.State, Series: t.Series, TotalSeries: t.Total, Labels: ls})
+			}
+		}
+		before := time.Now()
+		n.failUpdate = reloadFails
+		code, body := n.post("/api/v1/shard/targets/", req)
+		n.failUpdate = false
+		after := time.Now()
+		acknowledged := code == 200
+		if !acknowledged {
+			if !reloadFails {
+				add("C10/update-rejected", "step %d: update answered %d %s", i, code, body)
+				return false
+			}
+			flags["update-whose-reload-fails"] = true
+			// not acknowledged: the sidecar tracks the old or the new assignment, as a whole
+			got, err := keysOf("/api/v1/shard/targets/status/")
+			if err != nil {
+				add("C10/status-get-fails", "step %d: %v", i, err)
+				return false
+			}
+			isNew, isOld := true, true
+			want := map[uint64]bool{}
+			for _, ts := range assign {
 				for _, t := range ts {
-					ls := lbls("__address__", c10Addr(t.Hash), "__scheme__", "http", "__metrics_path__", "/metrics", "job", job)
-					if t.NoAddr {
-						ls = lbls("__scheme__", "http", "__metrics_path__", "/metrics", "job", job)
-					}
-					req.Targets[job] = append(req.Targets[job], &target.Target{Hash: t.Hash, TargetState: t.State, Series: t.Series, TotalSeries: t.Total, Labels: ls})
+					want[t.Hash] = true
 				}
 			}
-			before := time.Now()
-			n.failUpdate = reloadFails
-			code, body := n.post("/api/v1/shard/targets/", req)
-			n.failUpdate = false
-			after := time.Now()
-			acknowledged := code == 200
-			if !acknowledged {
-				if !reloadFails {
-					add("C10/update-rejected", "step %d: update answered %d %s", i, code, body)
-					return false
-				}
-				flags["update-whose-reload-fails"] = true
-				// not acknowledged: the sidecar tracks the old or the new assignment, as a whole
-				got, err := keysOf("/api/v1/shard/targets/status/")
-				if err != nil {
-					add("C10/status-get-fails", "step %d: %v", i, err)
-					return false
-				}
-				isNew, isOld := true, true
-				want := map[uint64]bool{}
-				for _, ts := range assign {
-					for _, t := range ts {
-						want[t.Hash] = true
-					}
-				}
-				for h := range want {
-					isNew = isNew && got[h]
-				}
-				for h := range got {
-					isNew = isNew && want[h]
-					isOld = isOld && model[h] != nil
-				}
-				for h := range model {
-					isOld = isOld && got[h]
-				}
-				if !isNew {
-					if !isOld {
-						add("C10/failed-update-leaves-partial-state", "step %d: the update failed (Prometheus reload), status now has entries %v: neither the old assignment nor the requested one %v", i, got, want)
-					}
-					return false // the old assignment stays in force
-				}
+			for h := range want {
+				isNew = isNew && got[h]
 			}
-			nm := map[uint64]*mEntry{}
-			for job, ts := range assign {
-				for _, t := range ts {
-					if old := model[t.Hash]; old != nil {
-						if old.state == "" && t.State == "in_transfer" {
-							old.times = 0
-							if scrapedSince[t.Hash] {
-								flags["flip-after-scrape"] = true
-							}
+			for h := range got {
+				isNew = isNew && want[h]
+				isOld = isOld && model[h] != nil
+			}
+			for h := range model {
+				isOld = isOld && got[h]
+			}
+			if !isNew {
+				if !isOld {
+					add("C10/failed-update-leaves-partial-state", "step %d: the update failed (Prometheus reload), status now has entries %v: neither the old assignment nor the requested one %v", i, got, want)
+				}
+				return false // the old assignment stays in force
+			}
+		}
+		nm := map[uint64]*mEntry{}
+		for job, ts := range assign {
+			for _, t := range ts {
+				if old := model[t.Hash]; old != nil {
+					if old.state == "" && t.State == "in_transfer" {
+						old.times = 0
+						if scrapedSince[t.Hash] {
+							flags["flip-after-scrape"] = true
 						}
-						old.state, old.job = t.State, job
-						nm[t.Hash] = old
-						kept[t.Hash]++
-						if kept[t.Hash] >= 2 {
-							flags["kept-across-2-updates"] = true
-						}
-					} else {
-						nm[t.Hash] = &mEntry{job: job, state: t.State, health: "unknown", series: t.Series, total: t.Total, synced: true}
-						kept[t.Hash] = 0
-						scrapedSince[t.Hash] = false
 					}
+					old.state, old.job = t.State, job
+					nm[t.Hash] = old
+					kept[t.Hash]++
+					if kept[t.Hash] >= 2 {
+						flags["kept-across-2-updates"] = true
+					}
+				} else {
+					nm[t.Hash] = &mEntry{job: job, state: t.State, health: "unknown", series: t.Series, total: t.Total, synced: true}
+					kept[t.Hash] = 0
+					scrapedSince[t.Hash] = false
 				}
 			}
-			if len(nm) == 0 && len(model) == 0 {
-				flags["empty-to-empty"] = true
+		}
+		if len(nm) == 0 && len(model) == 0 {
+			flags["empty-to-empty"] = true
+		}
+		if len(nm) == 0 {
+			if cur == nil {
+				cur = &epoch{lo: before, hi: after}
 			}
-			if len(nm) == 0 {
-				if cur == nil {
-					cur = &epoch{lo: before, hi: after}
-				}
-			} else {
-				cur = nil
+		} else {
+			cur = nil
+		}
+		model = nm
+		if acknowledged {
+			acked = map[uint64]mEntry{}
+			for h, m := range nm {
+				acked[h] = mEntry{job: m.job, state: m.state}
 			}
-			model = nm
-			if acknowledged {
-				acked = map[uint64]mEntry{}
-				for h, m := range nm {
-					acked[h] = mEntry{job: m.job, state: m.state}
-				}
-				persisted = cur
-			}
-			return true
+			persisted = cur
+		}
+		return true
 	}
 	for i, op := range c.Ops {
 		if len(vs) > 0 {
